@@ -313,4 +313,32 @@ def repairIndex (readHeader : Nat → Option Nat → Nat → Option (List IndexB
     (readHeader r.1 r.2.1 r.2.2).map fun bl => { id := r.1, blobs := bl, size := none }
   st.out ++ (if newPacks.isEmpty then [] else [{ packs := newPacks, packsToDelete := [] }])
 
+/-! ### `repair_index(opts, dry_run)` (C08, round 3): the `dry_run` flag
+
+`repair_index` has ONE body for both modes; `dry_run` is tested at exactly two places:
+* `match (changed, dry_run)` in the loop over the index files: `(true, true)` only logs "would have modified index file",
+  `(true, false)` saves the new file (unless empty) and queues the old one in `indexes_remove`, `(false, _)` does nothing —
+  so in a dry run every index file STAYS (`repairFileD`), while `check_pack` still runs (its `packs_to_read` are read);
+* `if !dry_run { indexer.add_with(pack, false) }` after each successful header read: nothing reaches the indexer, whose
+  `finalize` then writes no file; `indexes_remove` is empty, so nothing is removed (`repairIndexD`).
+`repairIndexD false = repairIndex` (`Lemmas`: `repairIndexD_false`). -/
+
+def repairFileD (dry readAll : Bool) (st : RepairAcc) (f : IndexFile) : RepairAcc :=
+  let r := f.allPacks.foldl (checkOne readAll)
+    { remaining := st.remaining, toRead := st.toRead, newIndex := { packs := [], packsToDelete := [] }, changed := false }
+  { remaining := r.remaining, toRead := r.toRead
+    out := match r.changed, dry with
+      | true, true => st.out ++ [f]
+      | true, false =>
+        (if r.newIndex.packs.isEmpty && r.newIndex.packsToDelete.isEmpty then st.out else st.out ++ [r.newIndex])
+      | false, _ => st.out ++ [f] }
+
+def repairIndexD (dry : Bool) (readHeader : Nat → Option Nat → Nat → Option (List IndexBlob)) (store : List (Nat × Nat))
+    (files : List IndexFile) (readAll : Bool) : List IndexFile :=
+  let st := files.foldl (repairFileD dry readAll) { remaining := store, toRead := [], out := [] }
+  let reads := st.toRead ++ st.remaining.map (fun e => (e.1, none, e.2))
+  let newPacks : List IndexPack := reads.filterMap fun r =>
+    (readHeader r.1 r.2.1 r.2.2).bind fun bl => if dry then none else some { id := r.1, blobs := bl, size := none }
+  st.out ++ (if newPacks.isEmpty then [] else [{ packs := newPacks, packsToDelete := [] }])
+
 end Rustic.Index
